@@ -808,7 +808,11 @@ func (c *Ctx) execConvert(s *State, x *ssa.Convert) {
 		if fs == SFlt {
 			c.setVal(s, x, Sc{T: a})
 		} else {
-			c.setVal(s, x, Sc{T: c.d.Apply("tofloat", []Term{c.toInt(a)}, SFlt)})
+			ai := c.toInt(a)
+			f := c.d.Apply("tofloat", []Term{ai}, SFlt)
+			// int -> float conversion preserves the sign
+			s.assume(Implies(Ge(ai, IntLit(0)), c.d.Apply("fnonneg", []Term{f}, SBool)))
+			c.setVal(s, x, Sc{T: f})
 		}
 	case fs == SFlt && ts == SInt:
 		r := c.freshValue(s, to, "fromfloat")
